@@ -373,8 +373,11 @@ package engine
 //@   reenter * modifies s.transport.v keeping s.Transport() != nil
 //@   callsite transports.Transport.Send#1
 //@     assert [C08.flush.current,C01.flush.current] $this == s.Transport()
+// the first two events of a hand-off are the flush events (session and server, in either order), each carrying the batch
 //@   callsite types.EventEmitter.Emit#1
-//@     assert [C18.flushbatch] $evt == "flush" && len($args) == 1
+//@     assert [C18.flushbatch] $evt == "flush" && (len($args) == 1 || len($args) == 2)
+//@   callsite types.EventEmitter.Emit#2
+//@     assert [C18.flushbatch2] $evt == "flush" && (len($args) == 1 || len($args) == 2)
 // the writability test, the buffer swap and the hand-off form one critical section: two flushes can neither both see the
 // transport writable nor hand their batches over in the opposite order
 //@   callsite transports.Transport.Writable#1
